@@ -1,6 +1,7 @@
 import VaxisModel.Driver.Common
 import VaxisModel.Model.Window
 import VaxisModel.Spec.Window
+import VaxisModel.Model.App
 
 /-! Driver for C11.  One case per line (stateless):
 
@@ -169,6 +170,7 @@ def runModel (p : Parsed) (win : Win) : Option (Screen × Option (Int × Int)) :
   | "trunc", [row] => some (printTruncate p.lib rm win s row (flat1 p.ann), none)
   | "println", [row] => some (println p.lib rm win s row (flat1 p.ann), none)
   | "wrap", [] => let r := wrap p.lib rm win s p.ann; some (r.1, some r.2)
+  | "cursor", [c, r, _] => some (s, some (VaxisModel.Model.App.cursorPos win c r))
   | _, _ => none
 
 /-- What the property requires the changed cells to be, from the implementation's own geometry. -/
@@ -259,6 +261,14 @@ def verdict (p : Parsed) (impl : Impl) : String :=
     let s := startScreen p.sw p.sh
     let o := Spec.Window.absOrigin win
     if impl.origin ≠ o then s!"FAIL Origin() {impl.origin.1},{impl.origin.2} but offsets sum to {o.1},{o.2}"
+    else if p.kind = "cursor" then
+      -- `Window.ShowCursor(c,r,style)`: the cursor is requested visible at origin + offset in that style
+      match p.args with
+      | [c, r, st] =>
+        let want := s!"{o.1 + c},{o.2 + r},{st},1"
+        if ¬ impl.cells.isEmpty then "FAIL ShowCursor changed screen cells"
+        else if impl.ret = want then "ok" else s!"FAIL cursor requested {impl.ret}, window origin + offset is {want}"
+      | _ => "FAIL bad op"
     else
     match impl.cells.find? (fun (x, y, _) => ¬ Spec.Window.visible win s x y) with
     | some (x, y, _) => s!"FAIL escape {p.kind}: cell {x},{y} changed outside the clip region"
@@ -295,7 +305,10 @@ def step (line : String) : String :=
       | none => "bad-op\tbad-op\tbad-op"
       | some (s', ret) =>
         let o := win.origin
-        let mc := s!"{"/".intercalate (p.wins.map geomStr)};{o.1},{o.2};{retStr ret};{cellsStr (diffCells s')}"
+        let rs := match p.kind, p.args, ret with
+          | "cursor", [_, _, st], some (x, y) => s!"{x},{y},{st},1"
+          | _, _, _ => retStr ret
+        let mc := s!"{"/".intercalate (p.wins.map geomStr)};{o.1},{o.2};{rs};{cellsStr (diffCells s')}"
         if impl = "panic" then s!"{mc}\tpanic\tFAIL panic"
         else match parseImpl? impl with
         | none => s!"{mc}\t{impl}\tFAIL unreadable impl result"
